@@ -402,10 +402,50 @@ func strip(v ssa.Value) ssa.Value {
 			v = x.X
 		case *ssa.ChangeInterface:
 			v = x.X
+		case *ssa.UnOp:
+			// a parameter that lives in a cell because a closure captures it: the cell is written once, at entry, with
+			// the parameter, and closures only read it — its loads are the parameter
+			if p := paramCell(x); p != nil {
+				v = p
+				continue
+			}
+			return v
 		default:
 			return v
 		}
 	}
+}
+
+func paramCell(ld *ssa.UnOp) *ssa.Parameter {
+	if ld.Op != token.MUL {
+		return nil
+	}
+	al, ok := ld.X.(*ssa.Alloc)
+	if !ok {
+		return nil
+	}
+	var prm *ssa.Parameter
+	for _, ref := range *al.Referrers() {
+		switch x := ref.(type) {
+		case *ssa.Store:
+			if x.Addr != ssa.Value(al) || prm != nil {
+				return nil
+			}
+			p, isP := x.Val.(*ssa.Parameter)
+			if !isP {
+				return nil
+			}
+			prm = p
+		case *ssa.UnOp, *ssa.DebugRef:
+		case *ssa.MakeClosure:
+			if !closureOnlyReads(x, al) {
+				return nil
+			}
+		default:
+			return nil
+		}
+	}
+	return prm
 }
 
 func constInt(v ssa.Value) (int64, bool) {
